@@ -334,6 +334,10 @@ func (vfs *MemFS) Link(oldname, newname string) error {
 		return &os.LinkError{Op: op, Old: oldname, New: newname, Err: nerr}
 	}
 
+	if !pi.IsLast() {
+		return &os.LinkError{Op: op, Old: oldname, New: newname, Err: nerr}
+	}
+
 	nParent.mu.Lock()
 	defer nParent.mu.Unlock()
 
